@@ -12,6 +12,7 @@ import (
 	"pgregory.net/rapid"
 
 	"verifharness/h"
+	"verifharness/mgen"
 	ref "verifharness/ref/bip39"
 )
 
@@ -187,6 +188,57 @@ func TestSeed(t *testing.T) {
 		Gen: genSeed, Check: checkSeed,
 		Require: []string{"seed/normalizing-table", "seed/invalid-mnemonic", "seed/empty-passphrase", "seed/normalizing-raw"},
 		Rule:    "valid mnemonics of both lists (all sizes) x passphrases built from a hand-made (raw, NFKD) piece table (composed, compatibility, Hangul, kana, mis-ordered combining marks) or arbitrary strings (NFKD by x/text); seed = own PBKDF2-HMAC-SHA512(2048) over words joined by one space and salt mnemonic||NFKD(passphrase); invalid mnemonics give an error; non-trivial = non-empty passphrase or invalid mnemonic; distinct by case",
+	})
+}
+
+// invalid mnemonics are cheap (rejected before the key stretching), so they get their own,
+// larger sub-check: mutated valid sentences of every size, incl. single checksum-bit flips
+type invCase struct {
+	Lang  string   `json:"lang"`
+	Words []string `json:"words"`
+	Mut   string   `json:"mutation"`
+}
+
+func TestSeedInvalidMnemonic(t *testing.T) {
+	h.Run(t, h.Sub[invCase]{
+		Prop: "C09", Name: "seed-invalid-mnemonic", N: 12000,
+		Gen: func(t *rapid.T) invCase {
+			lang := h.OneOf(t, "lang", langs...)
+			l, other := list(lang), list(langs[0])
+			if lang == langs[0] {
+				other = list(langs[1])
+			}
+			words := mgen.ValidSentence(t, l)
+			words, mut := mgen.Mutate(t, words, l, other)
+			if rapid.Bool().Draw(t, "twice") {
+				var m2 string
+				words, m2 = mgen.Mutate(t, words, l, other)
+				mut += "+" + m2
+			}
+			return invCase{lang, words, mut}
+		},
+		Check: func(c invCase) (h.Info, error) {
+			if err := bip39.SetWordList(c.Lang); err != nil {
+				return h.Info{}, err
+			}
+			_, werr := ref.Decode(list(c.Lang), c.Words)
+			if werr == nil {
+				// the mutation happened to produce a valid sentence: judged by the full seed oracle
+				return checkSeed(seedCase{Lang: c.Lang, Words: c.Words, Pieces: []int{1}})
+			}
+			cls := "invalid/" + c.Mut
+			if len(c.Words) >= 27 {
+				cls += "/long"
+			}
+			info := h.Info{Class: cls, NT: true}
+			got, err := bip39.MnemonicToSeed(append(bip39.Mnemonic{}, c.Words...), "TREZOR")
+			if err == nil || got != nil {
+				return info, fmt.Errorf("MnemonicToSeed(%q) [%s, mutation %s]: the mnemonic is invalid (%v) but a seed %x was returned (err=%v)", c.Words, c.Lang, c.Mut, werr, got, err)
+			}
+			return info, nil
+		},
+		Require: []string{"invalid/checksum-bit-flip/long", "invalid/checksum-bit-flip", "invalid/last-word/long", "invalid/drop", "invalid/foreign-word"},
+		Rule:    "valid sentences of every size (12..48 words, both lists) with one or two mutations (other word, last word, single checksum-bit flip, single bit flip, foreign-list word, malformed word, drop, duplicate, swap): whenever the reference rejects the sentence MnemonicToSeed must return an error and no seed; all non-trivial; distinct by case",
 	})
 }
 
